@@ -107,15 +107,21 @@ def run_analysis(F):
     # out-of-range argument is unwrapped on a value derived from an unchecked caller argument
     an2 = ranges.Analysis(F, mode="unvalidated")
     an2.run(entries)
+    second = lambda key, a: a["kind"] == "unwrap"
     for key, a in an2.alarms.items():
-        if a["kind"] == "unwrap" and key not in an.alarms:
+        if second(key, a) and key not in an.alarms:
             an.alarms[key] = a
             an.raw_params.setdefault(a["fn"], set()).update(an2.raw_params.get(a["fn"], ()))
-    an.sites += sum(1 for a in an2.alarms.values() if a["kind"] == "unwrap")
+    an.sites += sum(1 for key, a in an2.alarms.items() if second(key, a))
     return entries, an
 
 
 def check_config(ctx, F, tag):
+    check_raw_values(ctx, F, tag)
+    check_config_rest(ctx, F, tag)
+
+
+def check_raw_values(ctx, F, tag):
     entries, an = run_analysis(F)
     ctx.count("total-entry-points" + tag, len(entries))
     ctx.count("functions-reached-with-raw-values" + tag, len(an.raw_params))
@@ -155,6 +161,8 @@ def check_config(ctx, F, tag):
             ctx.ob("C09.R1.raw-value-bounded", key + tag, a["where"], False, "guard-dominance", a["detail"] + " [reached via %s]" % a["chain"])
     ctx.floor("total-entry-points" + tag, FLOOR_ENTRIES)
 
+
+def check_config_rest(ctx, F, tag):
     # ---------------- R2 width predicate
     check_width_predicate(ctx, F, tag, "C09.R2")
     # "select / select_zero(r >= count) = None with empty iterators": an iterator built for an out-of-range start has length 0
